@@ -157,6 +157,7 @@ def _short_ty(ty):
     return ty
 
 
+PHI = False        # set only while the frozen-skeleton tables are collected (siteguard): excuse-table keys never contain phi(..)
 ALIASES = {}      # short callee name -> canonical role name (set by the check driver from roles.aliases)
 
 
@@ -222,25 +223,39 @@ def sdesc_local(B, l, depth=0):
             if c in ('deref', 'deref_mut', 'as_ref', 'as_mut', 'borrow', 'branch', 'into', 'from', 'to_owned', 'clone', 'to_path_buf', 'as_slice', 'as_str', 'must_use') and t['args']:
                 return sdesc_operand(B, t['args'][0], depth)
             return '%s(%s)' % (c, ','.join(sdesc_operand(B, a, depth + 1) for a in t['args'][:3]))
-        rv = d[4]
-        k = rv['k']
-        if k in ('use', 'cast'):
-            return sdesc_operand(B, rv['op'], depth)
-        if k in ('ref', 'copyforderef'):
-            return sdesc_place(B, rv['place'], depth)
-        if k == 'binop':
-            return '%s(%s,%s)' % (rv['op'].replace('WithOverflow', ''), sdesc_operand(B, rv['l'], depth + 1), sdesc_operand(B, rv['r'], depth + 1))
-        if k == 'unop':
-            return '%s(%s)' % (rv['op'], sdesc_operand(B, rv['a'], depth + 1))
-        if k == 'aggregate':
-            head = rv.get('variant') or rv['agg']
-            if 0 < len(rv['ops']) <= 3 and rv['agg'] in ('adt', 'tuple'):
-                return '%s(%s)' % (head, ','.join(sdesc_operand(B, o, depth + 1) for o in rv['ops']))
-            return head
-        if k == 'discr':
-            return 'discr(%s)' % sdesc_place(B, rv['place'], depth + 1)
-        return k
+        return sdesc_rv(B, d[4], depth)
+    if PHI and 2 <= len(ds) <= 3 and depth <= 2 and all(d[0] in ('call', 'assign') for d in ds):
+        # (only for the frozen-skeleton tables) a variable assigned on a few paths is described by the set of its definitions
+        alts = set()
+        for d in ds:
+            if d[0] == 'call':
+                t = d[3]
+                alts.add('%s(%s)' % (_short(t.get('callee') or callee_of(t) or '?'), ','.join(sdesc_operand(B, a, depth + 3) for a in t['args'][:3])))
+            else:
+                alts.add(sdesc_rv(B, d[4], depth + 3))
+        return 'phi(%s)' % '|'.join(sorted(alts))
     return 'var<%s>' % _short_ty(B.local_ty(l))
+
+
+def sdesc_rv(B, rv, depth=0):
+    """structural description of an rvalue (see sdesc_local)"""
+    k = rv['k']
+    if k in ('use', 'cast'):
+        return sdesc_operand(B, rv['op'], depth)
+    if k in ('ref', 'copyforderef'):
+        return sdesc_place(B, rv['place'], depth)
+    if k == 'binop':
+        return '%s(%s,%s)' % (rv['op'].replace('WithOverflow', ''), sdesc_operand(B, rv['l'], depth + 1), sdesc_operand(B, rv['r'], depth + 1))
+    if k == 'unop':
+        return '%s(%s)' % (rv['op'], sdesc_operand(B, rv['a'], depth + 1))
+    if k == 'aggregate':
+        head = rv.get('variant') or rv['agg']
+        if 0 < len(rv['ops']) <= 3 and rv['agg'] in ('adt', 'tuple'):
+            return '%s(%s)' % (head, ','.join(sdesc_operand(B, o, depth + 1) for o in rv['ops']))
+        return head
+    if k == 'discr':
+        return 'discr(%s)' % sdesc_place(B, rv['place'], depth + 1)
+    return k
 
 
 def skey_call(B, t):
